@@ -3,6 +3,7 @@
 package bundler
 
 import (
+	"github.com/evanw/esbuild/internal/ast"
 	"github.com/evanw/esbuild/internal/config"
 	"github.com/evanw/esbuild/internal/fs"
 	"github.com/evanw/esbuild/internal/graph"
@@ -47,8 +48,31 @@ type hOut struct {
 	merge    bool
 }
 
-func vK17a() {
+// hBundle3: entry a.js; b.js and c.js are project files that the entry imports
+// or not (an orphaned file, e.g. the unused half of a dual package, is not an
+// input of the build)
+func hBundle3(importsB, importsC bool) *Bundle {
 	b := hBundle(1)
+	b.files = append(b.files, scannerFile{inputFile: graph.InputFile{
+		Source: logger.Source{Index: 3, KeyPath: logger.Path{Text: "/in/c.js", Namespace: "file"},
+			PrettyPaths: logger.PrettyPaths{Abs: "/in/c.js", Rel: "/in/c.js"}},
+		Repr: &graph.JSRepr{},
+	}})
+	repr := b.files[1].inputFile.Repr.(*graph.JSRepr)
+	if importsB {
+		repr.AST.ImportRecords = append(repr.AST.ImportRecords, ast.ImportRecord{Kind: ast.ImportStmt, SourceIndex: ast.MakeIndex32(2)})
+	}
+	if importsC {
+		repr.AST.ImportRecords = append(repr.AST.ImportRecords, ast.ImportRecord{Kind: ast.ImportStmt, SourceIndex: ast.MakeIndex32(3)})
+	}
+	return b
+}
+
+var hOutUniverse3 = []string{"/in/a.js", "/in/b.js", "/out/a.js", "/out/b.js", "/in/c.js"}
+
+func vK17a() {
+	importsB, importsC := vBool(), vBool()
+	b := hBundle3(importsB, importsC)
 	b.options.AllowOverwrite = vBool()
 	b.options.WriteToStdout = vBool()
 	cancelled := vBool()
@@ -59,7 +83,7 @@ func vK17a() {
 	n := hLen(0, vParam("OUTS", 3))
 	planned := make([]hOut, n)
 	for i := range planned {
-		planned[i] = hOut{path: vChoose(len(hOutUniverse)), contents: hBytes(hLen(0, 1)), merge: vBool()}
+		planned[i] = hOut{path: vChoose(len(hOutUniverse3)), contents: hBytes(hLen(0, 1)), merge: vBool()}
 	}
 	linked := false
 	link := func(options *config.Options, timer *helpers.Timer, log logger.Log, fs fs.FS, res *resolver.Resolver,
@@ -68,7 +92,7 @@ func vK17a() {
 		linked = true
 		var outs []graph.OutputFile
 		for _, p := range planned {
-			outs = append(outs, graph.OutputFile{AbsPath: hOutUniverse[p.path], Contents: p.contents, CanBeMerged: p.merge})
+			outs = append(outs, graph.OutputFile{AbsPath: hOutUniverse3[p.path], Contents: p.contents, CanBeMerged: p.merge})
 		}
 		return outs
 	}
@@ -84,6 +108,12 @@ func vK17a() {
 			if !b.options.AllowOverwrite {
 				// the inputs of this build: files reachable from the entry point
 				vAssert(o.AbsPath != hInputs[0], "no reported output has the path of an input file (without allow-overwrite)")
+				if importsB {
+					vAssert(o.AbsPath != "/in/b.js", "no reported output has the path of an imported input file")
+				}
+				if importsC {
+					vAssert(o.AbsPath != "/in/c.js", "no reported output has the path of an imported input file (also when an orphaned file sits before it)")
+				}
 			}
 		}
 		for i := range outs {
@@ -95,7 +125,7 @@ func vK17a() {
 		for _, p := range planned {
 			found := false
 			for _, o := range outs {
-				if o.AbsPath == hOutUniverse[p.path] && len(o.Contents) == len(p.contents) {
+				if o.AbsPath == hOutUniverse3[p.path] && len(o.Contents) == len(p.contents) {
 					eq := true
 					for k := range p.contents {
 						eq = eq && o.Contents[k] == p.contents[k]
